@@ -12,25 +12,31 @@ A_MEM = ('dbus_malloc/dbus_realloc/dbus_free are the allocator (stubs/c14_mem.c)
 A_ALIGN = ('platform fact (DESIGN 3.5): allocator blocks are 8-aligned, so fixup_alignment never shifts the text (align_offset == 0); '
            'the static function is bound to that statement with --replace-calls, its own assertions are kept')
 A_PRE = 'precondition STR_OK: DBUS_GENERIC_STRING_PREAMBLE + not constant/locked + str is the start of a live heap block of `allocated` bytes + str[len] == 0'
+A_MEMOPS = ('memmove/memcpy/memset by their ISO C contracts instantiated at the ghost positions the postconditions read; every other byte of the '
+            'destination object is havocked (over-approximation, stubs/c14_memops.c); CBMC\'s built-in models do not terminate on symbolic sizes')
 F_MEM = [dict(name='dbus_malloc/dbus_realloc/dbus_free', file='dbus/dbus-memory.c', status='stub', note='allocator, may fail at every call; realloc always moves'),
          dict(name='fixup_alignment', file=STR, status='stub', note='align_offset stays 0 (8-aligned allocator blocks)'),
-         dict(name='memmove/memcpy/memset', file='libc', status='assumed', note='CBMC built-in models')]
+         dict(name='memmove/memcpy/memset', file='libc', status='stub', note='ISO C contract at ghost instantiation points, rest of the destination object havocked')]
 
 UNITS = []
 
 
-def s_unit(fn_no, name, fns, contract, must, expect=20, tier='quick', extra_defines=(), unwindset=(), timeout=900, n=N):
-    UNITS.append(dict(
-        name='C14.str.' + name, props=['C14'], kind='B' if n else 'P', route='stub', entry='harness',
-        tus=[dict(file=STR, include_as='VERIF_TU')], harness='harness/c14_str.c', extra_sources=['stubs/c14_mem.c', 'stubs/c14_memops.c'],
-        defines=['VERIF_FN=%d' % fn_no] + (['VERIF_N=%d' % n] if n else []) + list(extra_defines),
-        replace_calls={'fixup_alignment': 'verif_stub_fixup_alignment', 'memmove': 'verif_stub_memmove', 'memcpy': 'verif_stub_memcpy', 'memset': 'verif_stub_memset'},
-        cbmc_flags=OOM, unwindset=list(unwindset), timeout=timeout, expect_s=expect, tier=tier,
-        must_have=list(must) + ['STR_OK re-established'],
-        bounds=({'string_bytes_before': n, 'bytes_added': n,
-                 'note': 'no loop of dbus-string.c is unwound (the functions are loop-free); the bound is on buffer sizes only'} if n else None),
-        functions=[dict(name=f, file=STR, status='bounded', contract=contract) for f in fns] + F_MEM,
-        assumptions=[A_PRE, A_MEM, A_ALIGN]))
+def s_unit(fn_no, name, fns, contract, must, expect=20, npts=3, unwindset=(), heavy=False):
+    """One function of dbus-string.c.  Cheap units: one P unit (every size) in the quick tier.  heavy=True (two strings / alignment):
+    a size-capped B unit (<= 64 bytes) in the quick tier and the uncapped P unit in the thorough tier."""
+    variants = [(None, 'thorough', '', expect * 8), (64, 'quick', '.n64', expect)] if heavy else [(None, 'quick', '', expect)]
+    for n, tier, suffix, exp in variants:
+        UNITS.append(dict(
+            name='C14.str.' + name + suffix, props=['C14'], kind='B' if n else 'P', route='stub', entry='harness',
+            tus=[dict(file=STR, include_as='VERIF_TU')], harness='harness/c14_str.c', extra_sources=['stubs/c14_mem.c', 'stubs/c14_memops.c'],
+            defines=['VERIF_FN=%d' % fn_no, 'VERIF_NPTS=%d' % npts] + (['VERIF_N=%d' % n] if n else []),
+            replace_calls={'fixup_alignment': 'verif_stub_fixup_alignment', 'memmove': 'verif_stub_memmove', 'memcpy': 'verif_stub_memcpy', 'memset': 'verif_stub_memset'},
+            cbmc_flags=OOM, unwindset=list(unwindset), timeout=3000 if not n else 1200, expect_s=exp, tier=tier,
+            must_have=list(must) + ([] if fn_no == 17 else ['STR_OK re-established']),
+            bounds=({'string_bytes_before': n, 'bytes_added': n,
+                     'note': 'no loop is unwound (the functions are loop-free); only the buffer sizes are capped, for the quick tier; the thorough-tier unit of the same name without .n64 has no cap'} if n else None),
+            functions=[dict(name=f, file=STR, status='bounded' if n else 'enforced', contract=contract) for f in fns] + F_MEM,
+            assumptions=[A_PRE, A_MEM, A_ALIGN, A_MEMOPS]))
 
 
 FALSE_UNCH = 'FALSE => length and every byte unchanged'
@@ -44,34 +50,33 @@ s_unit(3, 'lengthen', ['_dbus_string_lengthen', 'set_length', 'reallocate_for_le
        ['_dbus_string_lengthen: ' + FALSE_UNCH])
 s_unit(5, 'append_byte', ['_dbus_string_append_byte'], 'TRUE => old text + byte; FALSE => unchanged', ['_dbus_string_append_byte: ' + FALSE_UNCH])
 s_unit(6, 'append_len', ['_dbus_string_append_len', 'append'], 'TRUE => old text followed by buffer[0..len) (ghost index); FALSE => unchanged; buffer untouched',
-       ['_dbus_string_append_len: ' + FALSE_UNCH, 'appended bytes are the buffer'])
+       ['_dbus_string_append_len: ' + FALSE_UNCH, 'appended bytes are the buffer'], npts=4)
 s_unit(8, 'append_cstr', ['_dbus_string_append', 'append'], 'TRUE => old text followed by the C string (<= 16 bytes); FALSE => unchanged',
-       ['_dbus_string_append: ' + FALSE_UNCH], unwindset=['harness.0:18', 'harness.1:18', 'strlen.0:18'])
+       ['_dbus_string_append: ' + FALSE_UNCH], unwindset=['harness.1:18', 'harness.2:18', 'strlen.0:18'])
 s_unit(9, 'open_gap', ['open_gap'], 'TRUE => len += n, bytes before insert_at unchanged, bytes from insert_at on shifted up by n (ghost index); FALSE => unchanged',
        ['open_gap: ' + FALSE_UNCH, 'open_gap: TRUE => bytes from the insertion point on'])
 s_unit(10, 'insert_bytes', ['_dbus_string_insert_bytes', 'open_gap'], 'as open_gap + the n inserted bytes have the given value',
        ['_dbus_string_insert_bytes: ' + FALSE_UNCH, 'inserted bytes all have the given value'])
 s_unit(11, 'insert_byte', ['_dbus_string_insert_byte'], 'as insert_bytes with n == 1', ['_dbus_string_insert_byte: ' + FALSE_UNCH])
 s_unit(12, 'copy_len', ['_dbus_string_copy_len', 'copy', 'open_gap'], 'source never modified; TRUE => dest = prefix + source[start..start+len) + shifted rest; FALSE => dest unchanged',
-       ['_dbus_string_copy_len: FALSE => dest', '_dbus_string_copy_len: the source is never modified'], expect=60)
+       ['_dbus_string_copy_len: FALSE => dest', '_dbus_string_copy_len: the source is never modified'], expect=120, npts=7, heavy=True)
 s_unit(13, 'move_len', ['_dbus_string_move_len', 'copy', 'delete'], 'TRUE => dest as copy_len and the segment removed from the source (rest shifted down); FALSE => both unchanged; buffer-swap shortcut included',
-       ['_dbus_string_move_len: FALSE => dest', '_dbus_string_move_len: FALSE => source'], expect=60)
-s_unit(14, 'copy', ['_dbus_string_copy'], 'copy_len with len = rest of the source', ['_dbus_string_copy: FALSE => dest'], expect=60)
-s_unit(15, 'move', ['_dbus_string_move'], 'move_len with len = rest of the source', ['_dbus_string_move: FALSE => dest', '_dbus_string_move: FALSE => source'], expect=60)
+       ['_dbus_string_move_len: FALSE => dest', '_dbus_string_move_len: FALSE => source'], expect=180, npts=7, heavy=True)
+s_unit(14, 'copy', ['_dbus_string_copy'], 'copy_len with len = rest of the source', ['_dbus_string_copy: FALSE => dest'], expect=120, npts=7, heavy=True)
+s_unit(15, 'move', ['_dbus_string_move'], 'move_len with len = rest of the source', ['_dbus_string_move: FALSE => dest', '_dbus_string_move: FALSE => source'], expect=180, npts=7, heavy=True)
 s_unit(16, 'delete', ['_dbus_string_delete', 'delete'], 'len -= n, bytes before start unchanged, bytes behind the segment shifted down; no allocation', ['_dbus_string_delete: bytes behind'])
 s_unit(17, 'init_free', ['_dbus_string_init', '_dbus_string_init_preallocated', '_dbus_string_free'],
        'init: TRUE => STR_OK empty string with one fresh block, FALSE => only real->str touched; free: _DBUS_STRING_INIT_INVALID contents, block released once, idempotent on the invalid pattern',
        ['_dbus_string_init: FALSE', '_dbus_string_free: the block is released exactly once'])
-UNITS[-1]['must_have'] = [m for m in UNITS[-1]['must_have'] if m != 'STR_OK re-established']
 ALIGN_C = 'TRUE => *insert_at = smallest multiple of the alignment >= insert_at, padding bytes nul, len += padding + gap, bytes before unchanged, bytes behind shifted; FALSE => string and *insert_at unchanged'
 s_unit(18, 'align_gap', ['align_insert_point_then_open_gap'], ALIGN_C, ['align_insert_point_then_open_gap: ' + FALSE_UNCH, 'alignment padding is nul bytes'],
-       unwindset=['harness.0:9'], expect=60)
+       expect=60, npts=4, heavy=True)
 for no, w in ((19, 8), (20, 4), (21, 2)):
     s_unit(no, 'insert_%d_aligned' % w, ['_dbus_string_insert_%d_aligned' % w, 'align_insert_point_then_open_gap'], ALIGN_C + '; the %d value bytes at the aligned position' % w,
-           ['_dbus_string_insert_%d_aligned: ' % w + FALSE_UNCH, 'the value bytes sit at the aligned position'], unwindset=['harness.0:9'], expect=60)
-s_unit(22, 'insert_alignment', ['_dbus_string_insert_alignment'], ALIGN_C + ' (gap 0)', ['_dbus_string_insert_alignment: ' + FALSE_UNCH], unwindset=['harness.0:9'], expect=60)
+           ['_dbus_string_insert_%d_aligned: ' % w + FALSE_UNCH, 'the value bytes sit at the aligned position'], expect=60, npts=4, heavy=True)
+s_unit(22, 'insert_alignment', ['_dbus_string_insert_alignment'], ALIGN_C + ' (gap 0)', ['_dbus_string_insert_alignment: ' + FALSE_UNCH], expect=60, npts=4, heavy=True)
 s_unit(23, 'align_length', ['_dbus_string_align_length', 'align_length_then_lengthen'], 'TRUE => len rounded up to the alignment with nul bytes appended, old bytes unchanged; FALSE => unchanged',
-       ['_dbus_string_align_length: ' + FALSE_UNCH], unwindset=['harness.0:9'], expect=60)
+       ['_dbus_string_align_length: ' + FALSE_UNCH], expect=60, npts=4, heavy=True)
 s_unit(24, 'alloc_space', ['_dbus_string_alloc_space', '_dbus_string_shorten'], 'both outcomes: len and bytes unchanged; TRUE => capacity for extra_bytes', ['_dbus_string_alloc_space: length and every byte unchanged'])
 
 # ---- dbus-list.c on lists <= 3, link pool = failing allocator (B) ----
